@@ -44,7 +44,7 @@ LEVEL = "model_checking"
 NO_DIMS = [["#none"]]
 INVS = {
     "single": "InvWellFormed InvExactlyOnce InvRowMajor InvFinish InvOrderFree InvLen InvAddDerivers Emit",
-    "multi": "InvWellFormed InvProduct InvConcat InvSums InvLen Emit",
+    "multi": "InvWellFormed InvProduct InvConcat InvSums InvFilterSum InvLen Emit",
     "filter": "InvWellFormed InvFiltered InvLen Emit",
     "count": "InvWellFormed InvCount Emit",
     "hist": "InvWellFormed InvHistory Emit",
@@ -322,6 +322,20 @@ def check_multi(c: dict, o: dict) -> list:
             _list_check(res, esig, "iter(sum-expression)", lambda: list(iter(obj)), o["concat"], o["ordered"])
             _len_check(res, dict(esig, check="sum_expr_len", itemless=sig["empty_items_operand"]), "len(sum-expression)",
                        lambda: len(obj), o["clen"])
+            # filtered by the keys of ONE leaf (Sweep.tla L7b): every distinct projection of that leaf is yielded
+            for li, need in enumerate(o.get("fneed", [])):
+                if not need["keys"]:
+                    continue
+                got, exc2 = _call(lambda need=need: obj.filtered_sweep(tuple(need["keys"])).list())
+                fsig = dict(esig, check="sum_expr_filtered", leaf=li + 1)
+                if exc2:      # not stated: another leaf (e.g. one with derivers) may refuse keys it does not have
+                    continue
+                have = Counter(_canon(c) for c in got) if isinstance(got, list) else Counter()
+                missing = [c for c in need["proj"] if _canon(c) not in have]
+                if missing:
+                    res.append((dict(fsig, api="filtered_sweep(sum)", exc="mismatch", delta="missing"),
+                                f"filtered_sweep({need['keys']}) of the sum returned {got!r:.300}; the projections "
+                                f"{missing!r:.200} of leaf {li + 1} are missing", got))
         if len(res) > first:
             txt = _expr_text(e)
             res[first:] = [(sg, f"{txt}: {what}", obs) for sg, what, obs in res[first:]]
